@@ -132,3 +132,37 @@ Proof.
   intros OK E. unfold prun, pref in *. rewrite conv_has_end in E. rewrite conv_items.
   rewrite (stage_emitted_when_ended _ _ _ _ E), (levels_items _ _ _ OK). reflexivity.
 Qed.
+
+(* ------------------------------------------------------------------------------------ *)
+(* a binary combinator over two pipelines *)
+From HV Require Import Pull.PTwo.
+
+Lemma conv_items_g {B} (inj : B -> val) t : tr_items_until (conv inj t) = map inj (emitted t).
+Proof. induction t as [|[h [b| |]] r IH]; simpl; auto. f_equal. exact IH. Qed.
+
+Lemma conv_has_end_g {B} (inj : B -> val) (t : list (hintT * pstep B)) :
+  has_end (conv inj t) = has_end t.
+Proof. induction t as [|[h [b| |]] r IH]; simpl; auto. Qed.
+
+Theorem bpipe_items (c : bcase) n :
+  horizon_ok (b_sa c) (b_h c) (s_scr (b_a c), sh (b_a c)) = true ->
+  horizon_ok (b_sb c) (b_h c) (s_scr (b_b c), sh (b_b c)) = true ->
+  bpre c = true -> has_end (brun c n) = true ->
+  tr_items_until (brun c n) = bref c.
+Proof.
+  intros OA OB P E. unfold brun, bref, bpre, side_ref in *.
+  pose proof (levels_items _ _ _ OA) as EA. pose proof (levels_items _ _ _ OB) as EB.
+  cbn [fst] in EA, EB. rewrite <- EA, <- EB. clear EA EB.
+  set (ua := levels (b_sa c) (b_h c) (s_scr (b_a c), sh (b_a c))) in *.
+  set (ub := levels (b_sb c) (b_h c) (s_scr (b_b c), sh (b_b c))) in *.
+  destruct (b_top c); rewrite conv_has_end_g in E; rewrite conv_items_g; f_equal.
+  - destruct (@zip_runs N N (snd ua) (snd ub) (None, fst ua, fst ub)) as [s' R].
+    exact (emitted_when_ended R n E).
+  - destruct (@chain_runs N (snd ua) (snd ub) (fst ua, fst ub) P) as [s' R].
+    exact (emitted_when_ended R n E).
+  - apply andb_prop in P.
+    destruct (@zipl_runs N N (snd ua) (snd ub) (None, fst ua, fst ub) P) as [s' R].
+    exact (emitted_when_ended R n E).
+  - destruct (@cross_runs N N (snd ua) (None, fst ua, fst ub)) as [s' R].
+    exact (emitted_when_ended R n E).
+Qed.
